@@ -3,7 +3,7 @@ G network, by symbolic value numbering (R1) and the feed-forward (R2)."""
 import os
 import sys
 from mirlib import *
-from symexec import Terms, SymExec, SymFail, Cell, Ptr
+from symexec import Terms, SymExec, SymFail, Cell, Ptr, get_path, set_path
 sys.path.insert(0, os.path.join(os.path.dirname(os.path.dirname(os.path.abspath(__file__))), "specmodel"))
 import blake3_spec as spec
 
@@ -200,8 +200,26 @@ def rule_R1_c(ctx):
         if not isinstance(p, Ptr) or p.cell is not blk or off % 4:
             raise SymFail("load32 of an unexpected address")
         return M[off // 4]
-    ov = {"load32": load32, "counter_low": lambda cs, a: lo if a[0] == ctr else T.sym("?"), "counter_high": lambda cs, a: hi if a[0] == ctr else T.sym("?")}
-    cs = CSym([tp], T, overrides=ov)
+    def memcpy_words(cs, a):
+        """memcpy between uint32_t arrays with a constant byte count (cv -> state, IV -> state)"""
+        d, s_, n_ = a
+        if isinstance(s_, tuple):          # an array value (global table) decays to its first element
+            s_ = Ptr(Cell(s_))
+        if not (isinstance(d, Ptr) and isinstance(s_, Ptr) and T.is_const(n_)) or T.cval(n_) % 4:
+            raise SymFail("memcpy with a non-constant size or non-word operands")
+        k = T.cval(n_) // 4
+        db = get_path(d.cell.v, d.path[:-1]) if d.path else d.cell.v
+        sb = get_path(s_.cell.v, s_.path[:-1]) if s_.path else s_.cell.v
+        di, si = (d.path[-1] if d.path else 0), (s_.path[-1] if s_.path else 0)
+        if not isinstance(db, tuple) or not isinstance(sb, tuple) or di + k > len(db) or si + k > len(sb):
+            raise SymFail("memcpy outside its arrays")
+        nb = list(db)
+        nb[di:di + k] = sb[si:si + k]
+        d.cell.v = set_path(d.cell.v, d.path[:-1], tuple(nb)) if len(d.path) > 1 else tuple(nb)
+        return d
+    ov = {"load32": load32, "counter_low": lambda cs, a: lo if a[0] == ctr else T.sym("?"), "counter_high": lambda cs, a: hi if a[0] == ctr else T.sym("?"), "memcpy": memcpy_words}
+    import cvec as _cvec
+    cs = _cvec.CVec([tp], T, overrides=ov)          # CVec: CSym plus constant-trip-count loops (a `for` over the 7 rounds / 16 words)
     st = Cell(tuple(T.sym("st_uninit%d" % i) for i in range(16)))
     f = cs.funcs.get("compress_pre")
     if f is None:
